@@ -82,6 +82,25 @@ theorem decode_iff_rfc3629 (bs rest : Bytes) (v : Nat) :
   rw [key, next_iff_rfc3629]
   simp [modeOk]
 
+/-- booster reports `incomplete` exactly for truncated input: nothing at all, or a lead byte
+followed only by trail bytes, fewer than the lead announces.  (Everything else that is not a
+code point is `illegal`.) -/
+theorem decode_incomplete_iff (bs : Bytes) : (Boost.decode bs).1 = .incomplete ↔ Truncated bs :=
+  decode_incomplete_iff' bs
+
+/-! ## the specification itself is the usual notion of UTF-8 -/
+
+/-- an RFC 3629 encoding carries a Unicode scalar value (≤ U+10FFFF, not a surrogate) and is
+the shortest form for it -/
+theorem rfc3629_scalar_shortest (v : Nat) (enc : Bytes) (h : Rfc3629 v enc) :
+    Scalar v ∧ enc.length = shortestLen v :=
+  rfc_scalar_shortest h
+
+/-- conversely every scalar value has exactly one RFC 3629 encoding -/
+theorem rfc3629_total_unique (v : Nat) (h : Scalar v) :
+    ∃ enc, Rfc3629 v enc ∧ ∀ e, Rfc3629 v e → e = enc :=
+  ⟨encode v, rfc_encode h, fun _ he => rfc_eq_encode he⟩
+
 /-! ## whole strings -/
 
 /-- `utf8::validate(p,e,count,html)` with `count = 0` on entry reports success with `count = n`
@@ -112,6 +131,15 @@ theorem validate_count_accumulates (html : Bool) (s : Bytes) (c n : Nat) :
   · rintro ⟨k, hk, h⟩; have : k = n := by omega
     subst this; exact h
   · intro h; exact ⟨n, rfl, h⟩
+
+/-- on rejection the count is the number of characters read before the first position at which
+no character (of the mode) can be decoded -/
+theorem validate_count_on_failure (html : Bool) (s : Bytes) (n : Nat) (h : validate html s 0 = (false, n)) :
+    ∃ pre suf, s = pre ++ suf ∧ WellFormed html pre n ∧ Undecodable html suf := by
+  obtain ⟨pre, suf, k, e, hk, hw, hu⟩ := validateFuel_false_spec html s.length s 0 n (Nat.le_refl _) h
+  have : k = n := by omega
+  subst this
+  exact ⟨pre, suf, e, hw, hu⟩
 
 /-- `encoding::valid_utf8` / `valid("utf-8",…)`: HTML-safe mode -/
 theorem validUtf8_iff_wellformed_htmlsafe (s : Bytes) (n : Nat) :
@@ -171,6 +199,14 @@ theorem registered_names : ∀ e ∈ Gen.nameTable,
       simp only [Bool.and_eq_true, decide_eq_true_eq, Bool.not_eq_true'] at h1
       exact ⟨h1.1.1, h1.1.2, fun c => range_all_byte h1.2 c⟩
 
+/-- lookup of a validator, and the UTF-8 test, depend only on the significant part of the name:
+ASCII letters and digits before the first NUL, case-insensitively (`Spec.normName`) -/
+theorem name_lookup_normalises (n1 n2 : List Nat) (h : normName n1 = normName n2) :
+    getTester n1 = getTester n2 ∧ isUtf8 n1 = isUtf8 n2 := by
+  unfold getTester lookupIn isUtf8
+  rw [normalize_eq_normName n1, normalize_eq_normName n2, h]
+  exact ⟨rfl, rfl⟩
+
 /-- a single-byte validator judges each byte on its own: the verdict is the conjunction of the
 per-byte verdicts (so it is context free), on success `count` is the length, on failure the
 1-based position of the first rejected byte -/
@@ -224,6 +260,20 @@ theorem filter_yields_valid (s out : Bytes) (repl : UInt8) (hr : ReplOk repl)
     refine ⟨n + m, ?_⟩
     rw [e, consumed_append]
     exact wf_append hw hm
+
+/-- with replacement 0 filtering only deletes bytes: the result is a subsequence of the input -/
+theorem filter_only_deletes (s out : Bytes) (h : filterUtf8 s 0 = (false, some out)) : out.Sublist s := by
+  obtain ⟨_, h2⟩ := scanFuel_spec s.length s (Nat.le_refl _)
+  unfold filterUtf8 at h
+  cases hs : scanFuel s.length s with
+  | none => rw [hs] at h; cases h
+  | some prev =>
+    rw [hs] at h
+    obtain ⟨pre, n, e, hw, hlen⟩ := h2 prev hs
+    simp only [Prod.mk.injEq, Option.some.injEq, true_and] at h
+    subst h
+    rw [e, consumed_append]
+    exact List.Sublist.append (List.Sublist.refl pre) (filterFuel_sublist prev.length prev (Nat.le_refl _))
 
 /-- the hypothesis `ReplOk` cannot be dropped: with the replacement byte 0x80 the "filtered" text
 is the lone byte 0x80, which is not valid (the caller chose an invalid replacement; replayed on
@@ -296,6 +346,10 @@ example : Cms.next false [0xC2, 0x85] = (.cp 0x85, []) ∧ (Cms.next true [0xC2,
 example : WellFormed true [0x41, 0xC3, 0xA9] 2 :=
   ⟨[(0x41, [0x41]), (0xE9, [0xC3, 0xA9])], by decide, by decide, by decide⟩
 example : validate true [0x41, 0xC3, 0xA9] 0 = (true, 2) := by decide
+example : Truncated [0xE2, 0x82] := Or.inr ⟨0xE2, [0x82], 3, rfl, by decide, by decide, by decide⟩
+example : Scalar 0x1F600 := by unfold Scalar; omega
+example : normName [73, 83, 79, 45, 56, 56, 53, 57, 45, 49] = normName [105, 115, 111, 56, 56, 53, 57, 49] := by decide
+example : validate true [0x41, 0xC3, 0xA9, 0xC2, 0x80, 0x42] 0 = (false, 2) := by decide
 example : ReplOk 63 := Or.inr ⟨1, [(63, [63])], by decide, by decide, by decide⟩
 example : ReplOk 0 := Or.inl rfl
 example : filterUtf8 [0x41, 0xC3, 0xFF, 0x01, 0xC2, 0x80, 0x42] 63 = (false, some [0x41, 63, 63, 63, 63, 0x42]) := by decide
